@@ -201,7 +201,8 @@ children only: the bound overshoots its own buffered documents (HORIZON = 64 ins
 theorem C13_union_seek_danger_below_window_counterexample :
     let D := BUnion.ds Vec.ds 64
     let s0 := D.advance (BUnion.build Vec.ds 64 false [Vec.init [10, 500, 510] 1, Vec.init [2000] 1])
-    D.doc s0 = 500 ∧ (D.seekDanger 460 s0).1 = .lower 2000 := by
+    Gen.UNION_SEEK_DANGER_BELOW_WINDOW_BUFFERED = 0 →
+      D.doc s0 = 500 ∧ (D.seekDanger 460 s0).1 = .lower 2000 := by
   decide +kernel
 
 /-! ## non-vacuity -/
